@@ -202,11 +202,26 @@ func GenPlan(t *rapid.T, profile string, k Knobs) *Plan {
 			cycles := rapid.SampledFrom([]int{0, 1, 1, 2, 3}).Draw(t, "stop_cycles")
 			for c := 0; c < cycles; c++ {
 				cur = at("stop_at", cur+1, p.Horizon-1)
-				p.Timeline = append(p.Timeline, GenStopAction(t, cur, i, h))
-				if rapid.IntRange(0, 3).Draw(t, "restart") == 0 {
+				sa := GenStopAction(t, cur, i, h)
+				backToBack := false
+				if sa.Kind == ActCancelCtx {
+					switch rapid.IntRange(0, 2).Draw(t, "cancel_mode") {
+					case 0:
+						sa.ByDeadline = true
+					case 1:
+						// cancel(); Start(newCtx) back to back, without waiting for the old run to wind down
+						sa.NoWait, backToBack = true, true
+						sa.ThenStart = rapid.Bool().Draw(t, "then_start")
+					}
+				}
+				p.Timeline = append(p.Timeline, sa)
+				if !backToBack && rapid.IntRange(0, 3).Draw(t, "restart") == 0 {
 					break
 				}
 				gapMode := rapid.IntRange(0, 3).Draw(t, "restart_gap")
+				if backToBack {
+					gapMode = 0
+				}
 				var gap time.Duration
 				switch gapMode {
 				case 0:
